@@ -194,7 +194,7 @@ func ReadCases(rd io.Reader) ([]*Case, error) {
 // Writer emits cases with the implementation's observations.
 type Writer struct{ W *bufio.Writer }
 
-func (w *Writer) Case(id string)  { fmt.Fprintf(w.W, "case %s\n", id) }
-func (w *Writer) Op(r *Rec)       { fmt.Fprintf(w.W, "op %s\n", r.String()) }
-func (w *Writer) Ob(r *Rec)       { fmt.Fprintf(w.W, "ob %s\n", r.String()) }
-func (w *Writer) End()            { fmt.Fprintf(w.W, "end\n"); w.W.Flush() }
+func (w *Writer) Case(id string) { fmt.Fprintf(w.W, "case %s\n", id) }
+func (w *Writer) Op(r *Rec)      { fmt.Fprintf(w.W, "op %s\n", r.String()) }
+func (w *Writer) Ob(r *Rec)      { fmt.Fprintf(w.W, "ob %s\n", r.String()) }
+func (w *Writer) End()           { fmt.Fprintf(w.W, "end\n"); w.W.Flush() }
